@@ -94,8 +94,9 @@ pub struct Snap {
 pub fn snap(w: &PairWorld) -> Snap { try_snap(w).expect("Pool query") }
 /// None when the pair's Pool query fails (it must answer in every reachable state)
 pub fn try_snap(w: &PairWorld) -> Option<Snap> {
-    let pool = w.query_pool().ok()?;
-    Some(snap_with(w, pool))
+    // the query may also ABORT (e.g. pending fees exceeding a reserve make its subtraction overflow): same verdict as an error
+    let pool = std::panic::catch_unwind(std::panic::AssertUnwindSafe(|| w.query_pool())).ok()?.ok()?;
+    std::panic::catch_unwind(std::panic::AssertUnwindSafe(|| snap_with(w, pool))).ok()
 }
 fn snap_with(w: &PairWorld, pool: pair::PoolResponse) -> Snap {
     let who = |i: usize| -> &str { if i == 0 { w.pair.as_str() } else { ACCTS[i] } };
